@@ -68,3 +68,10 @@ Example C08_grid_example :
   read_files Z 0%Z [ [(3, 30); (1, 10); (2, 20)]; [(1, 11); (2, 21); (3, 31)] ]%Z
   = Some [ [(3, 30); (1, 10); (2, 20)]; [(3, 31); (1, 11); (2, 21)] ]%Z.
 Proof. vm_compute. reflexivity. Qed.
+
+(* cube packages (F38): the reference order is that of flux.fits and every named convolved file is aligned with it *)
+Theorem C08_grid_cube : forall (D : Type) (d0 : D) ref files, NoDup ref ->
+  Forall (fun f => Permutation (names_of D f) ref) files ->
+  exists outs, read_files_ref D d0 ref files = Some outs /\
+               Forall2 (fun out f => names_of D out = ref /\ Permutation out f) outs files.
+Proof. exact read_files_ref_spec. Qed.
